@@ -216,14 +216,14 @@ def build(repo):
     cb.set_header("""#[verifier::exec_allows_no_decreases_clause]
     pub fn check_branches(&mut self) -> (r: u32)
         requires targets_defined(old(self).code@), // A-targets
-        ensures all_in_range(final(self).code@, final(self).code@.len() as int), //@ C03:range
+        ensures all_in_range(final(self).code@, final(self).code@.len() as int), //@ C03,C13:range
 """, expect_sig="fn check_branches(&mut self) -> u32")
     cb.sub(r"let mut position = 0;", "let mut position: usize = 0;", "R3-type", expect=(0, 1))
     cb.sub(r"let mut remove = 1;", "let mut remove: usize = 1;", "R3-type", expect=(0, 1))
     cb.sub(r"let mut nb_fixes = 0;", "let mut nb_fixes: u32 = 0;", "R3-type", expect=(0, 1))
     # loop 1: while restart
     cb.loop_spec(1, r"^while restart$", """
-            invariant !restart ==> all_in_range(self.code@, self.code@.len() as int), //@ C03:range-outer
+            invariant !restart ==> all_in_range(self.code@, self.code@.len() as int), //@ C03,C13:range-outer
                 targets_defined(self.code@), //@ C03,C13,C01,C15:repair-keeps-targets-defined
 """)
     cb.after(r"while restart\s+invariant[^{]*\{", """
@@ -235,12 +235,12 @@ def build(repo):
                 invariant_except_break
                     self.code@ == code0, cb_bounded(code0, nb_fixes), targets_defined(code0), restart, !repair,
                     i.obeys_prophetic_iter_laws(),
-                    position + i.remaining().len() == code0.len(), //@ C03:scan-position
+                    position + i.remaining().len() == code0.len(), //@ C03,C13:scan-position
                     forall|k: int| 0 <= k < i.remaining().len() ==> *(#[trigger] i.remaining()[k]) == code0[position + k], //@ C03:scan-iter
-                    all_in_range(code0, position as int), //@ C03:range-scan
+                    all_in_range(code0, position as int), //@ C03,C13:range-scan
                 ensures
                     self.code@ == code0, cb_bounded(code0, nb_fixes),
-                    !repair ==> !restart && all_in_range(code0, code0.len() as int), //@ C03:range-scan-exit
+                    !repair ==> !restart && all_in_range(code0, code0.len() as int), //@ C03,C13:range-scan-exit
                     repair ==> restart && position < code0.len() && is_cbl(code0[position as int]), //@ C03,C01,C15:repair-at-branch
 """)
     cb.after(r"let j = i\.next\(\);", "proof { if j is Some { assert(*j->Some_0 == code0[position as int]); } }")
